@@ -252,7 +252,8 @@ public:
 	event_loop_impl(int type) :
 		reactor_type_(type),
 		stop_(false),
-		polling_(false)
+		polling_(false),
+		next_timer_id_(0)
 	{
 #ifdef ARTYOM_BEILIS_CPPCMS_VERIF
 		seed_ = artyom_beilis_cppcms_verif_rand ? artyom_beilis_cppcms_verif_rand() : 0;
@@ -303,28 +304,18 @@ public:
 		std::pair<ptime,timer_event> ev;
 		ev.first = point;
 		ev.second.h = h;
-		timer_events_type::iterator end=timer_events_.end();
 
-		if(timer_events_index_.size() < 1000) {
-			timer_events_index_.resize(1000,end);
-		}
+		// The ids count up: the id of a timer that has fired (its handler may still be
+		// waiting in the queue) or was cancelled is not given to another timer, so that a late
+		// cancel_timer_event() with it can't cancel somebody else's timer
+		int id;
+		do {
+			id = next_timer_id_;
+			next_timer_id_ = (next_timer_id_ == 0x7FFFFFFF) ? 0 : next_timer_id_ + 1;
+		} while(timer_events_index_.find(id)!=timer_events_index_.end());
 
-		int attempts = 0;
-
-		for(;;) {
-			int pos = rand(timer_events_index_.size());
-			if(timer_events_index_[pos] != end) {
-				attempts++;
-				if(attempts < 10 || timer_events_index_.size() >= rand_max)
-					continue;
-				// this must be empty so stop looping
-				pos = timer_events_index_.size();
-				timer_events_index_.resize(timer_events_index_.size()*2,end);
-			}
-			ev.second.event_id = pos;
-			timer_events_index_[pos] = timer_events_.insert(ev);
-			break;
-		}
+		ev.second.event_id = id;
+		timer_events_index_[id] = timer_events_.insert(ev);
 
 		if(polling_ && timer_events_.begin()->first >= point)
 			wake();
@@ -335,16 +326,17 @@ public:
 	{
 		lock_guard l(data_mutex_);
 
-		if(timer_events_index_.at(event_id)==timer_events_.end())
+		timer_events_index_type::iterator idptr = timer_events_index_.find(event_id);
+		if(idptr==timer_events_index_.end())
 			return;
 
-		timer_events_type::iterator evptr = timer_events_index_[event_id];
+		timer_events_type::iterator evptr = idptr->second;
 		
 		CPPCMS_VERIF_PROBE("io_service.cancel_found_timer_armed");
 		completion_handler evdisp(evptr->second.h,system::error_code(aio_error::canceled,aio_error_cat));
 		dispatch_queue_.push_back(evdisp);
 		timer_events_.erase(evptr);
-		timer_events_index_[event_id]=timer_events_.end();
+		timer_events_index_.erase(idptr);
 
 		if(polling_)
 			wake();
@@ -487,13 +479,14 @@ private:
 	// Timer events
 	//
 	typedef std::multimap<ptime,timer_event> timer_events_type;
-	typedef std::vector<timer_events_type::iterator> timer_events_index_type;
+	typedef std::map<int,timer_events_type::iterator> timer_events_index_type;
 
 	//
 	// The events semself
 	//
 	timer_events_type timer_events_;
 	timer_events_index_type timer_events_index_;
+	int next_timer_id_;
 
 	//
 	// Random number generator
@@ -574,7 +567,7 @@ private:
 
 		while(!stop_ && !timer_events_.empty() && timer_events_.begin()->first <= now) {
 			timer_events_type::iterator evptr = timer_events_.begin();
-			timer_events_index_[evptr->second.event_id] = timer_events_.end();
+			timer_events_index_.erase(evptr->second.event_id);
 			completion_handler disp(evptr->second.h,system::error_code());
 			dispatch_queue_.push_back(disp);
 			timer_events_.erase(evptr);
